@@ -5,6 +5,8 @@ cd "$(dirname "$0")/.."
 TIER=${1:-quick}
 for d in seeded/*/; do
   s=$(basename "$d"); id=${s:0:3}
+  alt=$(/venv/bin/python -c "import json;print(json.load(open('seeded/$s/meta.json')).get('check_id',''))" 2>/dev/null)
+  [ -n "$alt" ] && id=$alt
   out=$(TAIL=400 tools/try_seed.sh "seeded/$s" "$id" "$TIER" 2>&1)
   if echo "$out" | grep -q "^VIOLATION property=$id"; then echo "$s CAUGHT by $id"; else
     # some changes are documented as caught by another property's check
